@@ -121,5 +121,48 @@ def run(chk):
         chk.ok('C19-R2', 'none', sample='no iteration over a RandomState-hashed std collection in erg_common / erg_parser / erg_compiler')
     chk.floor('named lock-guard bindings examined', n_lets, 12)
     chk.undecide('whether the process-global FRESH_GEN counter reaches names in bytecode or messages (byte-identical output) is not judged')
+    # ---- the process-global fresh-name generator
+    chk.rule('C19-fresh', 'a fresh name is taken atomically: in erg_common::fresh::FreshNameGenerator the number that goes into the name is the value returned by the atomic increment '
+                          '— no separate `load` of the counter after `fetch_add` (between the two another analysis thread can increment, and both threads get the same name)')
+    chk.rule('C19-global', 'no number taken from a process-global counter that several analysis threads advance is printed in a diagnostic: the static FRESH_GEN names refinement '
+                           'variables (`%v_global_N`), and the Display of a refinement type prints that name — N depends on how the threads interleave')
+    FR = 'crates/erg_common/fresh.rs'
+    gens = [f_ for f_ in fx.fns(FR, 'erg_common') if T.norm(f_['path']).startswith('FreshNameGenerator::fresh_')]
+    chk.floor('fresh-name methods', len(gens), 2)
+    for g in gens:
+        adds = [c for c in T.calls(g['body']) if c.get('k') == 'MCall' and c['n'] in ('fetch_add', 'fetch_update')]
+        loads = [c for c in T.calls(g['body']) if c.get('k') == 'MCall' and c['n'] == 'load']
+        nm = T.norm(g['path'])
+        if adds and not loads:
+            chk.ok('C19-fresh', nm, sample='%s: the name uses the value returned by fetch_add' % nm)
+        elif adds and loads:
+            chk.bad('C19-fresh', nm, 'add-then-load', '%s increments the counter with fetch_add and reads it back with a separate load: under the schedule T1 add, T2 add, T1 load, T2 load both '
+                    'threads build the same "fresh" name' % nm, FR, loads[0].get('l'))
+        else:
+            chk.need(False, '%s: no atomic increment found' % nm)
+    statics = [f_ for f_ in fx.fns(FR, 'erg_common') if f_.get('dk') == 'Static' and f_['path'].endswith('FRESH_GEN')]
+    if chk.need(len(statics) == 1, 'erg_common::fresh::FRESH_GEN not found'):
+        users = 0
+        import json as _j, os as _o
+        idx = _j.load(open(_o.path.join(fx.dir, 'erg_compiler', 'index.json')))
+        for rel in idx['files']:
+            for f_ in fx.file(rel, 'erg_compiler')['fns']:
+                if any(x.get('k') == 'Path' and x.get('dk') == 'Static' and (x.get('d') or '').endswith('FRESH_GEN') for x in T.walk(f_['body'])):
+                    users += 1
+        chk.analysed['functions of erg_compiler that take names from FRESH_GEN'] = users
+        # does the Display of a refinement type print the variable name?
+        TY = 'crates/erg_compiler/ty/mod.rs'
+        prints = False
+        for f_ in fx.fns(TY):
+            if 'RefinementType' in (f_.get('self_ty') or '') and T.norm(f_['path']).split('::')[-1] in ('fmt', 'limited_fmt'):
+                if any(x.get('k') == 'Field' and x.get('n') == 'var' for x in T.walk(f_['body'])):
+                    prints = True
+        if users and prints:
+            chk.bad('C19-global', 'erg_common::fresh::FRESH_GEN', 'printed-counter', 'refinement variables are named from the process-global FRESH_GEN in %d functions of the checker and '
+                    'RefinementType prints the name: the `N` of `%%v_global_N` in a diagnostic differs from run to run when modules are analysed in parallel' % users, FR, statics[0]['line'])
+        else:
+            chk.ok('C19-global', 'FRESH_GEN')
+    from sa.props.c20 import edge_rule_as
+    edge_rule_as(chk, fx, 'C19-edge')      # an importer without its own dependency edge is neither ordered after the module nor joined with it
     return ('Dominance rule in lower(), type-based scan for RandomState iteration (receiver types from rustc typeck), and a scope rule for named lock guards. '
             'Byte-identical output across schedules is not decided.'), {}
